@@ -80,6 +80,8 @@ Fails(e) == CASE e.ev = "reset" -> <<>>
               [] e.ev = "bandiso" -> BandFails(e)
               [] e.ev = "bandiso2" -> Band2Fails(e)
               [] e.ev = "twodecode" -> TwoFails(e)
+              [] e.ev = "faileddecode" -> (IF e.err = "error" THEN Tag(e.after = e.before, "C10.state") ELSE <<>>)   \* a decode step that fails leaves the frame it looked at unchanged
+              [] e.ev = "marshalalias" -> Tag(e.err = "" /\ e.after = e.before, "C10.alias")      \* encoded output does not change the value when overwritten
               [] e.ev = "methodalias" -> Tag(\A k \in 1..Len(e.steps) : e.steps[k].err \in {"", "error"} /\ e.steps[k].intact, "C10.bounds")   \* methods of a frame never write into the caller's payload buffers
               [] e.ev = "subslice" -> SubsliceFails(e)
               [] e.ev = "hang" -> <<e.prop \o ".hang">>    \* a call that never returned (recorded by the watchdog of the harness)
